@@ -947,7 +947,13 @@ func (c *c06Case) step(op string) {
 			}
 			accts := make([]*account.Account, len(as))
 			for i, k := range as {
-				accts[i] = d.toAcct(k, c06Acct{Value: 1, State: 3})
+				// callers pass the account as they currently know
+				// it (only its trader key is used by the store)
+				if cur, found := prev.A[k]; found {
+					accts[i] = d.toAcct(k, cur)
+				} else {
+					accts[i] = d.toAcct(k, c06Acct{Value: 1, State: 3, Tx: 1})
+				}
 			}
 			var amods [][]account.Modifier
 			for _, ms := range ams {
@@ -1037,7 +1043,11 @@ func (c *c06Case) step(op string) {
 			for _, m := range ms {
 				l = append(l, d.realAMod(m))
 			}
-			res = c06ErrName(d.db.UpdateAccount(d.toAcct(k, c06Acct{Value: 1, State: 3}), l...))
+			cur, found := prev.A[k]
+			if !found {
+				cur = c06Acct{Value: 1, State: 3, Tx: 1}
+			}
+			res = c06ErrName(d.db.UpdateAccount(d.toAcct(k, cur), l...))
 			if a, ok := prev.A[k]; ok {
 				for _, m := range ms {
 					m.apply(&a)
